@@ -3,6 +3,37 @@ use std::path::PathBuf;
 use vpcore::props;
 use vpcore::runner::{self, Tier};
 
+/// Allocator wrapper: with VP_MISALIGN=1 in the environment (checked once at the start of main)
+/// byte buffers (alignment-1 requests, e.g. Vec<u8> key buffers) are placed at addresses 8n+1.
+/// Rust allows any address for alignment 1; code whose results depend on the address of a key
+/// buffer (C12: placement depends only on the key bytes and the table size) shows up here.
+struct Misalign;
+static MISALIGN_ON: std::sync::atomic::AtomicBool = std::sync::atomic::AtomicBool::new(false);
+
+unsafe impl std::alloc::GlobalAlloc for Misalign {
+    unsafe fn alloc(&self, l: std::alloc::Layout) -> *mut u8 {
+        if l.align() == 1 && l.size() > 0 && l.size() <= (1 << 20) && MISALIGN_ON.load(std::sync::atomic::Ordering::Relaxed) {
+            let l2 = std::alloc::Layout::from_size_align_unchecked(l.size() + 8, 8);
+            let p = std::alloc::System.alloc(l2);
+            if p.is_null() {
+                return p;
+            }
+            return p.add(1);
+        }
+        std::alloc::System.alloc(l)
+    }
+    unsafe fn dealloc(&self, p: *mut u8, l: std::alloc::Layout) {
+        if l.align() == 1 && (p as usize) & 7 == 1 {
+            let l2 = std::alloc::Layout::from_size_align_unchecked(l.size() + 8, 8);
+            return std::alloc::System.dealloc(p.sub(1), l2);
+        }
+        std::alloc::System.dealloc(p, l)
+    }
+}
+
+#[global_allocator]
+static GLOBAL: Misalign = Misalign;
+
 fn usage() -> ! {
     eprintln!(
         "usage: vp check <Cxx> <quick|thorough> | vp replay <file> | vp worker <Cxx> <tier> <seed> <scratch> |\n       vp replay-inner <file> | vp verify-dir <req.json> | vp gen <Cxx> <tier> <index> | vp one <Cxx> <tier> <index>"
@@ -26,6 +57,9 @@ fn seed_env() -> u64 {
 }
 
 fn main() {
+    if std::env::var_os("VP_MISALIGN").is_some() {
+        MISALIGN_ON.store(true, std::sync::atomic::Ordering::Relaxed);
+    }
     let args: Vec<String> = std::env::args().collect();
     if args.len() < 2 {
         usage();
